@@ -22,10 +22,33 @@ def main():
         spec = d['replay_spec']
         mod = importlib.import_module(spec['module'])
         rep = getattr(mod, 'replay', None)
-        if rep is None:
-            from harness.common import generic_replay as rep
-        ok = rep(spec, d)
-        sys.exit(1 if ok else 0)
+        if rep is not None:
+            sys.exit(1 if rep(spec, d) else 0)
+        # generic replay: re-run the one job the record names on the CURRENT tree (solver search + replay of its
+        # counterexamples on the real code) and report whether a violation with the recorded signature shows up again
+        prop = d.get('property')
+        pmod = importlib.import_module('harness.' + prop)
+        job = None
+        for tier in ('quick', 'thorough'):
+            for j in pmod.jobs(tier):
+                if j['name'] == d.get('job'):
+                    job = j
+                    break
+            if job:
+                break
+        print('recorded counterexample (%s, job %s):' % (d.get('signature'), d.get('job')))
+        print(json.dumps({'inputs': d.get('inputs'), 'violated': d.get('violated'), 'exception': d.get('exception')}, indent=1)[:2000])
+        if job is None:
+            print('job not found in the current harness; nothing re-run')
+            sys.exit(2)
+        res = common.run_jobs_hard([job])
+        again = [v for r in res for v in r.get('violations', []) if v.get('signature') == d.get('signature')]
+        other = [v for r in res for v in r.get('violations', []) if v.get('signature') != d.get('signature')]
+        if again:
+            print('REPRODUCED on the current tree: %s  inputs=%s' % (again[0]['signature'], json.dumps(again[0].get('inputs'))[:600]))
+            sys.exit(1)
+        print('NOT REPRODUCED on the current tree (%d other violation(s) in this job)' % len(other))
+        sys.exit(1 if other else 0)
     prop = a.what
     mod = importlib.import_module('harness.' + prop)
     if hasattr(mod, 'main'):
